@@ -189,6 +189,10 @@ let () =
           | L [A "divguardok"; p; i; io; ii; q] -> print_string (if divide_guard_ok_proc (sym i) (sym io) (sym ii) (zz q) (proc p) then "ok\n" else "outside\n")
           | L [A "divperfect"; p; i; io; ii; q] -> print_string (sproc (divide_perfect_proc (sym i) (sym io) (sym ii) (zz q) (proc p)) ^ "\n")
           | L [A "divperfectok"; p; i; io; ii; q] -> print_string (if divide_perfect_ok_proc (sym i) (sym io) (sym ii) (zz q) (proc p) then "ok\n" else "outside\n")
+          | L [A "rmguard"; p; i] -> print_string (sproc (remove_guard_proc (sym i) (proc p)) ^ "\n")
+          | L [A "rmguardok"; p; i] -> print_string (if remove_guard_ok_proc (sym i) (proc p) then "ok\n" else "outside\n")
+          | L [A "rmsplice"; p; i] -> print_string (sproc (remove_splice_proc (sym i) (proc p)) ^ "\n")
+          | L [A "rmspliceok"; p; i] -> print_string (if remove_splice_ok_proc (sym i) (proc p) then "ok\n" else "outside\n")
           | L [A "reorder"; p; i] -> print_string (sproc (reorder_proc (sym i) (proc p)) ^ "\n")
           | L [A "reorderok"; p; i] -> print_string (if reorder_ok_proc (sym i) (proc p) then "ok\n" else "outside\n")
           | L [A "shift"; p; x; e] -> print_string (sproc (shift_proc (sym x) (expr e) (proc p)) ^ "\n")
